@@ -14,6 +14,7 @@ package httpserver
 //                and after the last reload returned every new request gets the last generation.
 
 import (
+	"crypto/tls"
 	"encoding/json"
 	"fmt"
 	"io"
@@ -458,6 +459,9 @@ type c11RtSpec struct {
 	Block        []string `json:"block"` // server-level ipFilter
 	RulesTag     string   `json:"rulesTag"`
 	PathBlock    bool     `json:"pathBlock"`
+	RuleBlock    bool     `json:"ruleBlock"`   // rule-level ipFilter blocking 10.6.6.6
+	HTTPS        bool     `json:"https"`       // with the fixed self-signed key pair of the harness
+	HeaderRoute  bool     `json:"headerRoute"` // a header-conditioned route (its regexp is compiled into the typed spec)
 }
 
 type c11RestartIn struct {
@@ -470,7 +474,12 @@ type c11RestartObs struct {
 	Need       bool   `json:"need"`       // runtime.needRestartServer(old -> new)
 	StartDelta int    `json:"startDelta"` // increase of runtime.startNum caused by reload(new)
 	Live       string `json:"live"`       // "" not tried | "reused" | "newconn" | "failed" | "skipped"
-	Bad        string `json:"bad,omitempty"`
+	// the old spec, after it has been loaded into a mux (which compiles regexps INTO the typed spec),
+	// still Equals a fresh spec parsed from the same YAML (what Apply*'s "nothing changed" test relies on)
+	EqualAfterLoad bool       `json:"equalAfterLoad"`
+	After          []c11Tuple `json:"after"` // answers of the updated runtime to the probe requests
+	Fresh          []c11Tuple `json:"fresh"` // answers of a runtime that only ever had the new spec
+	Bad            string     `json:"bad,omitempty"`
 }
 
 func c11RtYAML(s c11RtSpec, ports [2]int) string {
@@ -479,8 +488,11 @@ func c11RtYAML(s c11RtSpec, ports [2]int) string {
 		port = ports[1]
 	}
 	var sb strings.Builder
-	fmt.Fprintf(&sb, "kind: HTTPServer\nname: srv\nport: %d\nkeepAlive: %v\nhttps: false\nxForwardedFor: %v\nclientMaxBodySize: %d\ncacheSize: %d\n",
-		port, s.KeepAlive, s.XFF, s.MaxBody, s.Cache)
+	fmt.Fprintf(&sb, "kind: HTTPServer\nname: srv\nport: %d\nkeepAlive: %v\nhttps: %v\nxForwardedFor: %v\nclientMaxBodySize: %d\ncacheSize: %d\n",
+		port, s.KeepAlive, s.HTTPS, s.XFF, s.MaxBody, s.Cache)
+	if s.HTTPS {
+		fmt.Fprintf(&sb, "certBase64: %s\nkeyBase64: %s\n", c11CertB64, c11KeyB64)
+	}
 	if s.KATimeout != "" {
 		fmt.Fprintf(&sb, "keepAliveTimeout: %s\n", s.KATimeout)
 	}
@@ -493,11 +505,29 @@ func c11RtYAML(s c11RtSpec, ports [2]int) string {
 	if len(s.Block) > 0 {
 		fmt.Fprintf(&sb, "ipFilter:\n  blockByDefault: false\n  blockIPs: [%s]\n", strings.Join(s.Block, ", "))
 	}
-	fmt.Fprintf(&sb, "rules:\n- paths:\n  - path: /a\n    backend: p%s\n", s.RulesTag)
+	sb.WriteString("rules:\n- ")
+	if s.RuleBlock {
+		sb.WriteString("ipFilter:\n    blockByDefault: false\n    blockIPs: [10.6.6.6]\n  ")
+	}
+	fmt.Fprintf(&sb, "paths:\n  - path: /a\n    backend: p%s\n", s.RulesTag)
 	if s.PathBlock {
 		sb.WriteString("    ipFilter:\n      blockByDefault: false\n      blockIPs: [10.7.7.7]\n")
 	}
+	// a header-conditioned route: its regexp is compiled into the typed spec when the mux is built
+	if s.HeaderRoute {
+		sb.WriteString("  - path: /h\n    backend: ph\n    headers:\n    - key: X-T\n      regexp: \"^t[0-9]+$\"\n")
+	}
 	return sb.String()
+}
+
+// probe requests of the restart group: four client identities and an oversized body
+var c11RtProbes = []c11MuxReq{
+	{Method: "GET", Path: "/a"},
+	{Method: "GET", Path: "/a", IP: "10.7.7.7"},
+	{Method: "GET", Path: "/a", IP: "10.8.8.8"},
+	{Method: "GET", Path: "/a", IP: "10.6.6.6"},
+	{Method: "POST", Path: "/a", BodyLen: 1030},
+	{Method: "GET", Path: "/zz", IP: "10.8.8.8"},
 }
 
 func c11FreePorts() (p [2]int) {
@@ -521,6 +551,13 @@ func c11RunRestart(in c11RestartIn) (obs c11RestartObs) {
 		return
 	}
 	mm := &c11Mapper{id: "m"}
+	{
+		m0 := c11NewMux()
+		ssLoaded, _ := supervisor.NewSpec(c11RtYAML(in.Old, ports))
+		m0.reload(ssLoaded, mm)
+		ssAgain, _ := supervisor.NewSpec(c11RtYAML(in.Old, ports))
+		obs.EqualAfterLoad = ssLoaded.Equals(ssAgain) && ssAgain.Equals(ssLoaded)
+	}
 	// the decision function itself
 	obs.Need = (&runtime{spec: ssOld.ObjectSpec().(*Spec)}).needRestartServer(ssNew.ObjectSpec().(*Spec))
 	if !in.Live {
@@ -532,10 +569,28 @@ func c11RunRestart(in c11RestartIn) (obs c11RestartObs) {
 		rt.setState(stateRunning)
 		rt.setError(errNil)
 		rt.mux.reload(ssOld, mm)
+		probe := in.Old.GlobalFilter == "" && in.New.GlobalFilter == "" // a global filter needs a supervisor at request time
+		if probe {
+			for _, q := range c11RtProbes { // traffic (and a warm route cache) before the update
+				c11Serve(rt.mux, q)
+			}
+		}
 		before := rt.startNum
-		rt.reload(ssNew, mm) // a restart binds a (free) loopback-visible port; released right below
+		// the update, as the runtime's event loop applies it
+		rt.handleEventReload(&eventReload{nextSuperSpec: ssNew, muxMapper: mm})
 		obs.StartDelta = int(rt.startNum - before)
-		rt.closeServer()
+		rt.closeServer() // a restart binds a (free) port; released here
+		if probe {
+			fresh := &runtime{superSpec: ssNew, spec: ssNew.ObjectSpec().(*Spec), eventChan: make(chan interface{}, 10),
+				httpStat: httpstat.New(), topN: httpstat.NewTopN(topNum), startNum: 1}
+			fresh.mux = newMux(fresh.httpStat, fresh.topN, mm)
+			ssNew2, _ := supervisor.NewSpec(c11RtYAML(in.New, ports))
+			fresh.mux.reload(ssNew2, mm)
+			for _, q := range c11RtProbes {
+				obs.After = append(obs.After, c11Serve(rt.mux, q))
+				obs.Fresh = append(obs.Fresh, c11Serve(fresh.mux, q))
+			}
+		}
 		return
 	}
 	// live: a real listener on a loopback port and one keep-alive client connection
@@ -554,11 +609,16 @@ func c11RunRestart(in c11RestartIn) (obs c11RestartObs) {
 	if in.Old.PortAlt {
 		port = ports[1]
 	}
-	tr := &http.Transport{MaxIdleConnsPerHost: 1, IdleConnTimeout: 30 * time.Second}
+	tr := &http.Transport{MaxIdleConnsPerHost: 1, IdleConnTimeout: 30 * time.Second,
+		TLSClientConfig: &tls.Config{InsecureSkipVerify: true}}
+	scheme := "http"
+	if in.Old.HTTPS {
+		scheme = "https"
+	}
 	defer tr.CloseIdleConnections()
 	cli := &http.Client{Transport: tr, Timeout: 5 * time.Second}
 	do := func() (status int, reused bool, err error) {
-		req, _ := http.NewRequest("GET", fmt.Sprintf("http://127.0.0.1:%d/a", port), nil)
+		req, _ := http.NewRequest("GET", fmt.Sprintf("%s://127.0.0.1:%d/a", scheme, port), nil)
 		trace := &httptrace.ClientTrace{GotConn: func(ci httptrace.GotConnInfo) { reused = ci.Reused }}
 		req = req.WithContext(httptrace.WithClientTrace(req.Context(), trace))
 		resp, e := cli.Do(req)
@@ -599,14 +659,17 @@ func c11RunRestart(in c11RestartIn) (obs c11RestartObs) {
 func c11GenRtSpec(r *vfRand) c11RtSpec {
 	s := c11RtSpec{KeepAlive: true, KATimeout: r.PickStr("", "", "30s"), MaxBody: int64(r.PickInt(0, 0, 1024)),
 		GlobalFilter: r.PickStr("", "", "gf"), XFF: r.Bool(), Cache: r.PickInt(0, 16), MaxConn: r.PickInt(0, 100, 2000),
-		RulesTag: "A", PathBlock: r.Chance(1, 3)}
+		RulesTag: "A", PathBlock: r.Chance(1, 3), RuleBlock: r.Chance(1, 3), HTTPS: r.Chance(1, 3), HeaderRoute: r.Chance(1, 2)}
 	if r.Chance(1, 2) {
 		s.Block = []string{r.PickStr("10.7.7.7", "10.8.8.8")}
+	}
+	if r.Chance(2, 3) {
+		s.GlobalFilter = ""
 	}
 	return s
 }
 
-func c11GenRestart(r *vfRand, live bool) c11RestartIn {
+func c11GenRestart(r *vfRand, live, adv bool) c11RestartIn {
 	in := c11RestartIn{Old: c11GenRtSpec(r), Live: live}
 	if live {
 		in.Old.GlobalFilter = "" // needs a supervisor at request time
@@ -621,7 +684,7 @@ func c11GenRestart(r *vfRand, live bool) c11RestartIn {
 			if len(in.New.Block) > 0 && r.Bool() {
 				in.New.Block = nil
 			} else {
-				in.New.Block = []string{r.PickStr("10.7.7.7", "10.6.6.6")}
+				in.New.Block = []string{r.PickStr("10.7.7.7", "10.8.8.8")}
 			}
 		case 2:
 			in.New.XFF = !in.New.XFF
@@ -631,15 +694,29 @@ func c11GenRestart(r *vfRand, live bool) c11RestartIn {
 			in.New.MaxConn = []int{100, 2000, 5000}[r.Intn(3)]
 		case 5:
 			in.New.PathBlock = !in.New.PathBlock
+		case 6:
+			in.New.RuleBlock = !in.New.RuleBlock
 		default: // unchanged
 		}
 	}
-	for k := r.Range(1, 3); k > 0; k-- {
+	// mostly exactly ONE hot field differs (a server-level ipFilter change in a third of the cases)
+	n := r.PickInt(1, 1, 1, 2, 3)
+	if adv || r.Chance(1, 3) {
+		n = 0
+		if len(in.New.Block) > 0 && r.Bool() {
+			in.New.Block = nil
+		} else {
+			in.New.Block = []string{r.PickStr("10.7.7.7", "10.8.8.8")}
+		}
+	}
+	for k := n; k > 0; k-- {
 		hot()
 	}
 	if !live && r.Chance(1, 3) {
 		// a change that concerns the listener (or that the code treats as such)
-		switch r.Intn(5) {
+		switch r.Intn(6) {
+		case 5:
+			in.New.HTTPS = !in.New.HTTPS
 		case 0:
 			in.New.PortAlt = !in.New.PortAlt
 		case 1:
@@ -778,9 +855,9 @@ func TestVerifC11Mux(t *testing.T) {
 	thorough := vfTier() == "thorough"
 	for i := 0; i < n; i++ {
 		r := root.Fork(i)
-		if i%10 == 4 {
-			// one case in four holds a real keep-alive connection across the reload
-			in := c11GenRestart(r, i%40 == 4)
+		if i%10 == 4 || i%10 == 7 {
+			// one case in eight holds a real keep-alive connection across the reload
+			in := c11GenRestart(r, i%40 == 4, adv)
 			out.Emit(vfCase{ID: fmt.Sprintf("%s-restart-%d", src, i), Src: src, Grp: "restart", In: in, Obs: c11RunRestart(in)})
 			continue
 		}
